@@ -23,22 +23,33 @@ func init() {
 // VPhiAll: the value, or every incoming edge of the phi it is, satisfies pred.
 func VPhiAll(pred func(ssa.Value) bool) func(ssa.Value) bool {
 	return func(v ssa.Value) bool {
-		if pred(v) {
-			return true
-		}
-		phi, ok := stripNoCell(v).(*ssa.Phi)
-		if !ok {
-			return false
-		}
-		for _, e := range phi.Edges {
-			if IsNilConst(e) {
-				continue
+		seen := map[*ssa.Phi]bool{}
+		n := 0
+		var rec func(v ssa.Value) bool
+		rec = func(v ssa.Value) bool {
+			if pred(v) {
+				n++
+				return true
 			}
-			if !pred(e) {
+			phi, ok := stripNoCell(v).(*ssa.Phi)
+			if !ok {
 				return false
 			}
+			if seen[phi] {
+				return true
+			}
+			seen[phi] = true
+			for _, e := range phi.Edges {
+				if IsNilConst(e) {
+					continue
+				}
+				if !rec(e) {
+					return false
+				}
+			}
+			return true
 		}
-		return len(phi.Edges) > 0
+		return rec(v) && n > 0
 	}
 }
 
